@@ -174,12 +174,16 @@ func fqCLI(args []string, files map[string][]byte) (cliObs, fqrun.Result, error)
 
 type cliCase struct {
 	prog      string
+	raw       bool // (c): the program text is given to fq exactly as written (not wrapped in `$in | (...)`)
 	nullInput bool
 	input     string   // (a): value of $in as JSON text
 	files     []string // (b): file contents, f0.json ...
 }
 
 func (c cliCase) args() ([]string, map[string][]byte) {
+	if c.raw {
+		return []string{"-nc", "--argjson", "in", c.input, c.prog}, nil
+	}
 	if c.files == nil {
 		return []string{"-nc", "--argjson", "in", c.input, "$in | (" + c.prog + ")"}, nil
 	}
@@ -199,7 +203,9 @@ func (c cliCase) args() ([]string, map[string][]byte) {
 
 func (c cliCase) run() (ref cliObs, fo cliObs, res fqrun.Result, refErr, fqErr error) {
 	args, files := c.args()
-	if c.files == nil {
+	if c.raw {
+		ref, refErr = refCLI(c.prog, true, nil, nil, []string{"$in"}, []any{mustJSON(c.input)})
+	} else if c.files == nil {
 		ref, refErr = refCLI("$in | ("+c.prog+")", true, nil, nil, []string{"$in"}, []any{mustJSON(c.input)})
 	} else {
 		var names []string
@@ -254,6 +260,19 @@ func cliCases(r *core.Run) []cliCase {
 			cs = append(cs, cliCase{prog: p, input: in})
 		}
 	}
+	// (c) user definitions shadow everything fq defines or treats specially: for every
+	// function name fq's bundled jq sources and Go registry define (found at run time), a
+	// user definition of that name at the root, after a pipe, inside a bind body and inside
+	// an array, called as the last term / not last, with 0 and 1 parameters. The program is
+	// passed exactly as written so that fq's own rewrite of the query sees the user's text.
+	for _, n := range shadowNames(r) {
+		for _, f := range shadowForms {
+			if strings.HasPrefix(n, "_") && !f.internal {
+				continue
+			}
+			cs = append(cs, cliCase{prog: strings.ReplaceAll(f.text, "NAME", n), raw: true, input: "[3,4]"})
+		}
+	}
 	// (b)
 	for _, fs := range cliFileSets {
 		for _, p := range cliInputProgs {
@@ -262,6 +281,64 @@ func cliCases(r *core.Run) []cliCase {
 		}
 	}
 	return cs
+}
+
+var shadowForms = []struct {
+	text     string
+	internal bool // also for `_` prefixed (internal) names
+}{
+	{"def NAME: 41; NAME", true},
+	{"$in | def NAME: length; NAME", true},
+	{"$in as $x | def NAME: $x | length; NAME", false},
+	{"def NAME: 42; $in | NAME", false},
+	{"def NAME: 43; NAME | . + 1", false},
+	{"[def NAME: 44; NAME]", false},
+	{"def NAME(f): f + 1; NAME(45)", false},
+	{"$in | def NAME(f): f; NAME(length)", false},
+	{"def NAME: 46; def g: NAME; g", false},
+	{"def NAME: 47; 1 as $y | NAME", false},
+	{"def NAME: 48; if true then NAME else 0 end", false},
+	{"def NAME: 49; try NAME catch 0", false},
+	{"$in | def NAME($a): $a + 1; NAME(50)", false},
+	{"$in | . as [$NAME] | $NAME", false},
+}
+
+var shadowNamesCache []string
+
+// shadowNames: every distinct function name defined by fq (bundled jq sources incl.
+// generated ones, Go registry), computed from the live tree.
+func shadowNames(r *core.Run) []string {
+	if shadowNamesCache != nil {
+		return shadowNamesCache
+	}
+	fq := newWatchedFQ(r)
+	defs, _, _ := fqDefined(fq)
+	seen := map[string]bool{}
+	var names []string
+	gen := 0
+	for _, d := range defs {
+		n := d.name[:strings.LastIndex(d.name, "/")]
+		// per format decode functions (mp3, from_mp3, ...) are generated from one template
+		// (dynamic include): the first 6 generated names stand for the rest
+		if strings.HasSuffix(d.src, "(generated)") && !seen[n] {
+			if gen >= 6 {
+				continue
+			}
+			gen++
+		}
+		if !seen[n] {
+			seen[n] = true
+			names = append(names, n)
+		}
+	}
+	sort.Strings(names)
+	if len(names) < 300 {
+		panic(fmt.Sprintf("c07: implausible shadow name discovery: %d names", len(names)))
+	}
+	r.Extra("cli_shadow_names", len(names))
+	r.Extra("cli_shadow_forms", len(shadowForms))
+	shadowNamesCache = names
+	return names
 }
 
 func cliSection(r *core.Run) {
